@@ -87,7 +87,7 @@ def a_harnesses(tier):
         for grad in (False, True):
             tag = ('gradient' if grad else 'flux') + '_%dx%dx%d' % shp
             dd = ['DIR=0', 'NMAXC=3', 'NCX=%d' % shp[0], 'NCY=%d' % shp[1], 'NCZ=%d' % shp[2]] + (['GRADIENT'] if grad else [])
-            common = dict(redirect={FLUX: '@stub_flux', GRAD: '@stub_grad'}, noinline=True, cflags=['-fopenmp'], native_replay=False, timeout=900, unwind=5, witness=(shp == (2, 2, 2)))
+            common = dict(redirect={FLUX: '@stub_flux', GRAD: '@stub_grad'}, noinline=True, cflags=['-fopenmp'], native_replay=False, timeout=900, unwind=max(5, shp[0] * shp[1] * shp[2] + 3), witness=(shp == (2, 2, 2)))
             H.append(AHarness('F2_inner_%s' % tag, 'c04_hydro.cpp', 'h_f2_inner', defs=dd, **common,
                 what='inner sweep visits every interior face of the block exactly once with the geometrically left cell as left argument, and nothing else (symbolic probe face; call count == number of interior faces)', bound='block of %dx%dx%d cells (non-cubic shapes included), probe face symbolic' % shp))
             H.append(AHarness('F2_outer_%s' % tag, 'c04_hydro.cpp', 'h_f2_outer', defs=dd, **common,
